@@ -513,8 +513,13 @@ class CompositeActiveTagValueProvider(ActiveTagValueProvider):
                 if value is Unknown:
                     continue
 
-                # -- FOUND CATEGORY:
-                self.data[category] = value
+                # -- FOUND CATEGORY: Remember where (lazy values stay lazy).
+                # NOTE: A nested value-provider evaluates a lazy value itself.
+                # HINT: Cache how to ask for it (not its current value).
+                def current_value(provider=value_provider):
+                    return self.use_value(provider.get(category))
+
+                self.data[category] = current_value
                 break
             # -- FOUND-CATEGORY or NOT-FOUND:
             if value is Unknown:
